@@ -10,6 +10,11 @@ tie    : * translator (every run)
 search : fresh-twin oracle — after `query; mutate; query` and after random histories the
          value returned must equal that of a newly constructed object given the same
          current inputs; summary attributes likewise.
+round 3: nested machine (`ncoherent_of_wf`, `nwf_all`, `flat_covers_nested_all`); call-edge
+         sandwich and exact lru histories against it; two-step mutator histories; EVERY
+         translator-known public mutator of every class through derived invokers
+         (harness/c01_generic.py: replay twin, recomputation after cache_clear(), Network-level
+         fresh twin) and the coverage obligation.
 """
 import contextlib
 import inspect
@@ -20,6 +25,7 @@ import os
 import numpy as np
 
 from . import common
+from . import c01_generic as G
 
 
 def quiet(fn, *a, **k):
@@ -1021,7 +1027,7 @@ def traced(cls, target, reads, writes):
                 setattr(cls, nm, orig)
 
 
-def sandwich(ctx, cname, spec, table, usable):
+def sandwich(ctx, cname, spec, table, usable, invokers=None):
     """observed attribute writes of every mutator and observed field reads of every cached
     method must be contained in what the translator derived from the source"""
     cls = spec["cls"]
@@ -1034,10 +1040,16 @@ def sandwich(ctx, cname, spec, table, usable):
     universe = {u for u in universe if "." not in u and u != "silence_level"}
     bad = []
     nchecked = 0
-    for oname, mut in spec["mutators"].items():
+    allmuts = dict(spec["mutators"])
+    for oname, (src, f, raising) in (invokers or {}).items():
+        if not raising and oname not in allmuts and "." not in oname:
+            allmuts[oname] = f
+    for oname, mut in allmuts.items():
         if oname not in muts:
             continue
         obj = quiet(spec["make"], rng)
+        if oname not in spec["mutators"]:
+            G.prepare(obj, rng)
         r, w = set(), set()
         try:
             with traced(cls, obj, r, w):
@@ -1128,6 +1140,291 @@ def mi_file_history(ctx):
                 break
 
 
+def derive_invokers(ctx, cname, spec, table):
+    """one invoker per translator-known public mutator of the class: (source, f, raising);
+    `missing` = mutators for which none could be derived"""
+    cls, rng = spec["cls"], ctx.rng
+    inv, missing = {}, []
+    for oname in sorted(table.get("mutators", {})):
+        src, cands = G.candidates(cname, cls, spec, oname)
+        if not cands:
+            missing.append(f"{cname}.{oname}")
+            continue
+        chosen = None
+        if src == "spec":
+            chosen = cands[0]
+        else:
+            for f in cands:
+                try:
+                    probe = quiet(spec["make"], rng)
+                    G.prepare(probe, rng)
+                except Exception:  # noqa
+                    break
+                if G.seeded_call(f, probe, rng, 1) is None:
+                    chosen = f
+                    break
+        inv[oname] = (src, chosen or cands[0], chosen is None)
+        ctx.count(f"{cname}:invoker:{src}" + (":raises" if chosen is None else ""))
+    return inv, missing
+
+
+def generic_stage(ctx, cname, spec, t, usable, invokers, quick):
+    """replay-twin / recomputation / Network-level-twin oracles for EVERY translator-known
+    mutator of the class (see harness/c01_generic.py)"""
+    cls, rng = spec["cls"], ctx.rng
+    muts, meths = t.get("mutators", {}), t.get("methods", {})
+    extra_q = [] if spec.get("only_summary") else G.weighted_queries(cls)
+    done = []
+    for oname, (src, f, raising) in invokers.items():
+        w = set(muts[oname]["writes"])
+        rel = [q for q in usable if q[0] in meths and w & set(meths[q[0]]["reads"])]
+        oth = [q for q in usable if q not in rel]
+        if src == "spec":        # the pairs stage already runs all queries against the fresh twin
+            k = (4, 2) if quick else (12, 6)
+        else:
+            k = (8, 4) if quick else (40, 20)
+        qs = rng.sample(rel, min(len(rel), k[0])) + rng.sample(oth, min(len(oth), k[1])) + extra_q
+        try:
+            a, b = G.make_pair(spec, rng)
+            st = rng.getstate()
+            G.prepare(a, rng)
+            rng.setstate(st)
+            G.prepare(b, rng)
+        except Exception as ex:  # noqa
+            ctx.count(f"{cname}:generic:make-raises:{type(ex).__name__}")
+            continue
+        key = lambda m, kw: (m, str(kw))  # noqa
+        before = {key(m, kw): G.outcome(lambda: quiet(getattr(a, m), **kw)) for m, kw in qs}
+        for expr in spec["summary"]:
+            try:
+                eval_summary(a, expr)
+            except Exception:  # noqa
+                pass
+        seed = rng.randrange(2 ** 31)
+        st = rng.getstate()
+        ea = G.seeded_call(f, a, rng, seed)
+        rng.setstate(st)
+        eb = G.seeded_call(f, b, rng, seed)
+        done.append(oname)
+        ctx.count(f"{cname}:generic:mutators")
+        if ea is not None:
+            ctx.count(f"{cname}:generic:mutator-raises:{oname}:{type(ea).__name__}")
+        replay = type(ea) is type(eb) and G.same_state(a, b, same)
+        if not replay:
+            ctx.count(f"{cname}:generic:not-replayable:{oname}")
+        after = {key(m, kw): G.outcome(lambda: quiet(getattr(a, m), **kw)) for m, kw in qs
+                 if not skip_now(a, m)}
+        summ = {}
+        for expr in spec["summary"]:
+            summ[expr] = G.outcome(lambda: eval_summary(a, expr))
+
+        def eq(x, y):
+            return x[0] == y[0] and (same(x[1], y[1]) if x[0] == "value" else x[1] == y[1])
+
+        def report(kind, what, oracle, got, want, extra=None):
+            sig = {"kind": kind, "class": cname, "mutator": oname, "oracle": oracle}
+            sig["query" if kind == "stale-query" else "attribute"] = what
+            ctx.fail(sig, f"{cname}.{what} after {oname} ({src} invoker) is {brief(got[1])} but "
+                     f"{oracle} gives {brief(want[1])}",
+                     dict(sig, args=extra, observed=brief(got[1]), expected=brief(want[1])))
+        # ---- replay twin ---------------------------------------------------------------
+        if replay:
+            for m, kw in qs:
+                if key(m, kw) not in after:
+                    continue
+                ob = G.outcome(lambda: quiet(getattr(b, m), **kw))
+                ctx.case((cname, "generic", m, str(kw), oname), not eq(before[key(m, kw)], ob),
+                         {"class": cname, "query": m, "args": kw, "mutator": oname})
+                ctx.count(f"{cname}:generic:pairs")
+                if not eq(after[key(m, kw)], ob):
+                    # a measure that is not a function of the inputs (solver start vectors)?
+                    quiet(b.cache_clear)
+                    ob2 = G.outcome(lambda: quiet(getattr(b, m), **kw))
+                    if eq(ob, ob2) and not eq(G.outcome(lambda: quiet(getattr(a, m), **kw)), ob2):
+                        report("stale-query", m, "replay-twin", after[key(m, kw)], ob, kw)
+            for expr in spec["summary"]:
+                sb = G.outcome(lambda: eval_summary(b, expr))
+                if not eq(summ[expr], sb):
+                    report("stale-summary", expr, "replay-twin", summ[expr], sb)
+        # ---- Network-level fresh twin --------------------------------------------------
+        nl = G.network_level(cls, t, qs)
+        if nl and ea is None:
+            try:
+                nt = quiet(G.network_twin, a)
+            except Exception as ex:  # noqa
+                nt = None
+                ctx.count(f"{cname}:generic:network-twin-raises:{type(ex).__name__}")
+            if nt is not None:
+                for m, kw in nl:
+                    if key(m, kw) not in after or (kw and "gw" not in nt.graph.es.attributes()):
+                        continue
+                    on = G.outcome(lambda: quiet(getattr(nt, m), **kw))
+                    ctx.count(f"{cname}:generic:network-twin-pairs")
+                    if not eq(after[key(m, kw)], on):
+                        on2 = G.outcome(lambda: quiet(getattr(quiet(G.network_twin, a), m), **kw))
+                        if eq(on, on2):
+                            report("stale-query", m, "network-twin", after[key(m, kw)], on, kw)
+                for expr in SUMMARY_NET:
+                    if expr in summ:
+                        sn = G.outcome(lambda: eval_summary(nt, expr))
+                        if not eq(summ[expr], sn):
+                            report("stale-summary", expr, "network-twin", summ[expr], sn)
+        # ---- recomputation on the same object ------------------------------------------
+        try:
+            quiet(a.cache_clear)
+        except Exception:  # noqa
+            continue
+        for m, kw in qs:
+            if key(m, kw) not in after:
+                continue
+            oc = G.outcome(lambda: quiet(getattr(a, m), **kw))
+            ctx.count(f"{cname}:generic:recomputed")
+            if not eq(after[key(m, kw)], oc):
+                quiet(a.cache_clear)
+                oc2 = G.outcome(lambda: quiet(getattr(a, m), **kw))
+                if eq(oc, oc2):
+                    report("stale-query", m, "recomputation", after[key(m, kw)], oc, kw)
+    return done
+
+
+
+def call_edges(ctx, cname, spec, mnames, usable, quick):
+    """observed nested cached calls: while m() runs on a fresh object (caches cleared), every
+    cached method of the class that is looked up *on that object* (attribute loads are traced
+    on the object under test only — sub-networks built by a measure and owned plots share the
+    function objects and their lru counters, so the counters cannot be used) must be reachable
+    from m through the call edges of the Lean table (`callees`)."""
+    cls, rng = spec["cls"], ctx.rng
+    cached = [n for n in mnames if hasattr(getattr(cls, n, None), "cache_info")]
+    cand = [m for m, kw in usable if not kw and m in cached]
+    cand = rng.sample(cand, min(len(cand), 8 if quick else 60))
+    reqs, obs = [], []
+    for m in cand:
+        try:
+            obj = quiet(spec["make"], rng)
+            quiet(obj.cache_clear)
+            fn = getattr(obj, m)
+            r, w = set(), set()
+            with traced(cls, obj, r, w):
+                quiet(fn)
+        except Exception:  # noqa
+            continue
+        seen = sorted(mnames.index(n) for n in cached if n != m and n in r)
+        reqs.append(f"callees {cname} {mnames.index(m)} 0")
+        obs.append((cname, m, seen))
+    return reqs, obs
+
+
+def lru_history(ctx, tables, quick):
+    """exact tie of the bounded cache: a history of `path_lengths(link_attribute=k)` calls over
+    more link attributes than `Cached.lru_params["maxsize"]`, interleaved with
+    `set_link_attribute`, on one Network object; hit / miss of every call must equal the Lean
+    machine's (`nhist`: lru order, trimming to maxsize, key = (_mut_A, _mut_la) + argument)"""
+    from pyunicorn.core import Network
+    rng = ctx.rng
+    t = tables["Network"]
+    mnames = list(t["order"])
+    onames = sorted(t["mutators"])
+    mi, oi = mnames.index("path_lengths"), onames.index("set_link_attribute")
+    reqs, impl = [], []
+    for rep in range(2 if quick else 12):
+        A = conn_graph(rng, 5, 0.5, components=1)
+        net = Network(adjacency=A, silence_level=3)
+        nkeys = rng.choice([34, 40, 48])
+        for k in range(nkeys):
+            net.set_link_attribute(f"k{k}", sym_attr(rng, A))
+        quiet(net.cache_clear)
+        ops, out = [], []
+        recent = []
+        for step in range(rng.randrange(120, 260)):
+            r = rng.random()
+            if r < 0.03:
+                net.set_link_attribute("k0", sym_attr(rng, A) + rng.random())
+                ops.append(f"m{oi}")
+                out.append("-")
+                continue
+            if r < 0.45 and recent:
+                k = rng.choice(recent[-rng.choice([3, 20, 33, 40]):])
+            else:
+                k = rng.randrange(nkeys)
+            recent.append(k)
+            c0 = Network.path_lengths.cache_info()
+            net.path_lengths(link_attribute=f"k{k}")
+            c1 = Network.path_lengths.cache_info()
+            ops.append(f"q{mi}.{100 + k}")
+            out.append("H" if c1.hits > c0.hits else "M")
+        ctx.case(("lru-history", rep, len(ops), nkeys), True)
+        ctx.count("Network:lru-histories")
+        ctx.count("Network:lru-history-ops", len(ops))
+        reqs.append("nhist Network " + ",".join(ops))
+        impl.append(out)
+    return reqs, impl
+
+
+def two_step_histories(ctx, cname, spec, usable, quick):
+    """`o1; queries; o2; queries` for ordered pairs of the spec's mutators against the fresh twin:
+    the second mutator acts on an object that the first one has moved away from its initial
+    state (`set_window(w); anomaly(); set_global_window(); anomaly()` — a mutator that restores
+    the initial state is invisible to `query; mutate; query` on a fresh object)"""
+    rng = ctx.rng
+    names = sorted(spec["mutators"])
+    pairs = [(a, b) for a in names for b in names]
+    cap = 16 if quick else 64
+    if len(pairs) > cap:
+        pairs = rng.sample(pairs, cap)
+    for o1, o2 in pairs:
+        try:
+            obj = quiet(spec["make"], rng)
+            quiet(spec["mutators"][o1], obj, rng)
+        except Exception:  # noqa
+            continue
+        probes = rng.sample(usable, min(len(usable), 10 if quick else 30))
+        for m, kw in probes:
+            try:
+                quiet(getattr(obj, m), **kw)
+            except Exception:  # noqa
+                pass
+        for expr in spec["summary"]:
+            try:
+                eval_summary(obj, expr)
+            except Exception:  # noqa
+                pass
+        try:
+            quiet(spec["mutators"][o2], obj, rng)
+            tw = quiet(spec["twin"], obj)
+        except Exception:  # noqa
+            continue
+        ctx.case((cname, "two-step", o1, o2), True)
+        ctx.count(f"{cname}:two-step-histories")
+        for m, kw in probes:
+            if skip_now(obj, m):
+                continue
+            try:
+                a = quiet(getattr(obj, m), **kw)
+                b = quiet(getattr(tw, m), **kw)
+            except Exception:  # noqa
+                continue
+            if not same(a, b) and not unstable(spec, obj, m, kw, b):
+                ctx.fail({"kind": "stale-query", "class": cname, "query": m, "mutator": o2,
+                          "after": o1},
+                         f"{cname}.{m}({kw}) after {o1}; queries; {o2} returns {brief(a)} but a fresh "
+                         f"object reports {brief(b)}",
+                         {"class": cname, "query": m, "args": kw, "history": [o1, "queries", o2],
+                          "observed": brief(a), "fresh": brief(b)})
+        for expr in spec["summary"]:
+            try:
+                a, b = eval_summary(obj, expr), eval_summary(tw, expr)
+            except Exception:  # noqa
+                continue
+            if not same(a, b):
+                ctx.fail({"kind": "stale-summary", "class": cname, "attribute": expr,
+                          "mutator": o2, "after": o1},
+                         f"{cname}.{expr} after {o1}; queries; {o2} is {brief(a)} but a fresh object "
+                         f"reports {brief(b)}",
+                         {"class": cname, "attribute": expr, "history": [o1, "queries", o2],
+                          "observed": brief(a), "fresh": brief(b)})
+
+
 def run(ctx):
     # several classes write files to the working directory (MI dumps): work in a scratch one
     import tempfile
@@ -1162,12 +1459,14 @@ def _run(ctx):
                                      for c, t in tables.items()}
     hist_reqs, hist_impl, hist_meta = [], [], []
     sw_checked, sw_bad = 0, []
+    unexercised, n_mutators = [], 0
+    edge_reqs, edge_obs = [], []
 
     for cname, mk in SPECS.items():
         spec = mk()
         cls = spec["cls"]
         t = tables.get(cname, {})
-        mnames = sorted(t.get("methods", {}))
+        mnames = list(t.get("order", sorted(t.get("methods", {}))))   # index = position in the Lean table
         onames = sorted(t.get("mutators", {}))
         queries = []
         if not spec.get("only_summary"):
@@ -1250,21 +1549,43 @@ def _run(ctx):
                              f"reports {brief(b)}",
                              {"class": cname, "attribute": expr, "mutator": oname,
                               "observed": brief(a), "fresh": brief(b)})
+        # ---- ordered pairs of mutators (round 3) ---------------------------------------------
+        two_step_histories(ctx, cname, spec, usable, quick)
+        # ---- every translator-known public mutator (round 3) --------------------------------
+        invokers, missing = derive_invokers(ctx, cname, spec, t)
+        unexercised += missing
+        done = generic_stage(ctx, cname, spec, t, usable, invokers, quick)
+        unexercised += [f"{cname}.{o} (never ran)" for o in invokers if o not in done]
+        n_mutators += len(t.get("mutators", {}))
         # ---- translator sandwich -----------------------------------------------------------
-        nck, bad_sw = sandwich(ctx, cname, spec, t, usable)
+        nck, bad_sw = sandwich(ctx, cname, spec, t, usable, invokers)
         sw_checked += nck
         sw_bad += bad_sw
+        r_, o_ = call_edges(ctx, cname, spec, mnames, usable, quick)
+        edge_reqs += r_
+        edge_obs += o_
         # ---- hit/miss correspondence: a fresh object per (query, mutator) -------------------
-        for oname, mut in spec["mutators"].items():
+        hm_muts = [(o, f, True) for o, f in spec["mutators"].items()] + \
+                  [(o, f, False) for o, (src, f, raising) in invokers.items()
+                   if src != "spec" and not raising]
+        for oname, mut, is_spec in hm_muts:
             if oname not in onames:
                 continue
-            for m, kw in usable:
-                if kw or m not in mnames or not hasattr(getattr(cls, m), "cache_info"):
-                    continue
+            cand = [(m, kw) for m, kw in usable
+                    if not kw and m in mnames and hasattr(getattr(cls, m), "cache_info")]
+            if not is_spec:     # derived invokers: a sample per mutator (all in the thorough tier)
+                cand = rng.sample(cand, min(len(cand), 3 if quick else 24))
+            for m, kw in cand:
                 try:
                     obj = quiet(spec["make"], rng)
+                    if not is_spec:
+                        G.prepare(obj, rng)
                     quiet(getattr(obj, m))
-                    quiet(mut, obj, rng)
+                    if is_spec:
+                        quiet(mut, obj, rng)
+                    elif not G.effective(oname, obj) or \
+                            G.seeded_call(mut, obj, rng, 7) is not None:
+                        continue
                     ci0 = getattr(cls, m).cache_info()
                     quiet(getattr(obj, m))
                     ci1 = getattr(cls, m).cache_info()
@@ -1328,6 +1649,38 @@ def _run(ctx):
                              {"class": cname, "attribute": expr, "history": trace,
                               "observed": brief(a), "fresh": brief(b)})
 
+    # ---- nested model: call edges and the bounded lru cache -------------------------------
+    ans = common.driver(ctx.pid, edge_reqs)
+    bad_e = []
+    for (cname, m, seen), a in zip(edge_obs, ans):
+        static = set() if a == "-" else {int(x) for x in a.split(",")}
+        extra = [x for x in seen if x not in static]
+        if extra:
+            names_ = list(tables[cname]["order"])
+            bad_e.append(f"{cname}.{m}() looked up {[names_[x] for x in extra]} on the object: no "
+                         "such call edge in the nested table")
+    ctx.obligation(f"call-edge sandwich: cached methods observed to compute inside a cached call are "
+                   f"reachable through the nested table's call edges ({len(edge_reqs)} calls)",
+                   "translator", not bad_e, "\n".join(bad_e[:10]))
+    lreqs, limpl = lru_history(ctx, tables, quick)
+    lans = common.driver(ctx.pid, lreqs)
+    bad_l = []
+    for i, (a, out) in enumerate(zip(lans, limpl)):
+        mod = ["-" if x == "-" else ("H" if x.split("+")[0].split("=")[0].endswith(".H") else "M")
+               for x in a.split(",")]
+        coh = all(x == "-" or x.endswith("=1") for x in a.split(","))
+        if mod != out or not coh:
+            j = next((j for j in range(min(len(mod), len(out))) if mod[j] != out[j]), -1)
+            bad_l.append(f"history {i}: first difference at op {j}: model={mod[j:j + 6]} "
+                         f"impl={out[j:j + 6]} coherent={coh}")
+    ctx.obligation(f"correspondence: hit/miss of every call of {len(lreqs)} lru histories (more "
+                   f"argument patterns than maxsize, interleaved mutators) == the Lean machine "
+                   f"with trimming to Cached.lru_params['maxsize']",
+                   "correspondence", not bad_l, "\n".join(bad_l[:5]))
+    ctx.obligation(f"coverage: every translator-known public mutator of every driven class is "
+                   f"exercised by a spec mutator or a derived invoker ({n_mutators} (class, mutator) "
+                   f"pairs)", "coverage", not unexercised, "\n".join(unexercised[:20]))
+    ctx.extra["mutators_exercised"] = n_mutators - len(unexercised)
     ctx.obligation(f"translator sandwich: observed attribute writes of mutators and field reads of "
                    f"cached methods are contained in the static tables ({sw_checked} traced calls)",
                    "translator", not sw_bad, "\n".join(sw_bad[:12]))
